@@ -391,10 +391,63 @@ func c05Case(c *core.Ctx, r *core.Rand, idx int) error {
 	return nil
 }
 
+// c05Split: a link system that READS from one storage and WRITES to another (the usual set-up for copying or
+// re-encoding a graph).  Storing a value commits its block to the storage written to - also when the storage read from
+// already holds that block - under the link ComputeLink gives, and loading through a link system over the written
+// storage returns the value.
+func c05Split(c *core.Ctx, r *core.Rand, n int) {
+	reg := testRegistry()
+	for i := 0; i < n; i++ {
+		src, dst := &memstore.Store{}, &memstore.Store{}
+		seedSys := cidlink.LinkSystemUsingMulticodecRegistry(reg)
+		seedSys.SetWriteStorage(src)
+		split := cidlink.LinkSystemUsingMulticodecRegistry(reg)
+		split.SetReadStorage(src)
+		split.SetWriteStorage(dst)
+		back := cidlink.LinkSystemUsingMulticodecRegistry(reg)
+		back.SetReadStorage(dst)
+		lp := cidlink.LinkPrototype{Prefix: cid.Prefix{Version: 1, Codec: 0x71, MhType: mh.SHA2_256, MhLength: -1}}
+		cfg := core.DefaultGen
+		cfg.MaxDepth, cfg.MaxWidth, cfg.BigUint = 3, 4, false
+		var hist []string
+		for k := 2 + r.Intn(4); k > 0; k-- {
+			v := core.GenVal(r, cfg, 0)
+			nd, err := core.BuildBasic(v, r)
+			if err != nil {
+				continue
+			}
+			already := r.Chance(1, 2)
+			if already {
+				if _, err := seedSys.Store(linking.LinkContext{}, lp, nd); err != nil {
+					continue
+				}
+			}
+			hist = append(hist, fmt.Sprintf("store(%s, already-on-read-side=%v)", v.Term(), already))
+			caseID := "c05.split " + strings.Join(hist, " ; ")
+			c.Count(caseID, already)
+			c.Dist("split-storage:" + map[bool]string{true: "block-already-on-read-side", false: "new-block"}[already])
+			lnk, err := split.Store(linking.LinkContext{}, lp, nd)
+			if err != nil {
+				c.Fail("C05/split-store-fails", core.Replay{Kind: "oracle", Case: caseID, Impl: err.Error(), Expected: "a link"})
+				continue
+			}
+			if want, err := split.ComputeLink(lp, nd); err != nil || want.String() != lnk.String() {
+				c.Fail("C05/store-link-differs-from-computed", core.Replay{Kind: "oracle", Case: caseID, Impl: lnk.String(), Expected: fmt.Sprint(want, err)})
+			}
+			got, err := back.Load(linking.LinkContext{}, lnk, basicnode.Prototype.Any)
+			if err != nil || termOf(got) != v.Sorted(core.LessCbor).Term() {
+				c.Fail("C05/stored-block-not-in-written-storage", core.Replay{Kind: "oracle", Case: caseID, Impl: termOfOrErr(got, err), Expected: v.Sorted(core.LessCbor).Term(),
+					Detail: "Store on a link system reading from one storage and writing to another; loading from the storage written to"})
+			}
+		}
+	}
+}
+
 func runC05(c *core.Ctx) error {
 	c.Rule = "per case one link system (memstore or cidlink.Memory) and a random interleaving of 4-13 store/compute/load/loadRaw/loadPlusRaw/fill operations over several values; values per codec domain (dag-cbor, dag-json, cbor, json, raw), CIDv0/v1, sha2-256/sha2-512/sha1/md5/identity, full and truncated digests, random insertion orders and assembly plans; non-trivial = history of at least 4 operations; distinct by history"
 	c.Explanation = "theorems (arbitrary hash function and codec table): buildLink_hashesTo, store_eq_compute, link_fun, link_perm_dagcbor, history_inv, load_store, load_store_dagcbor"
 	c.Assumptions = []string{"hash implementations trusted; composition checked", "floats are kept out of the JSON-codec values here (known finding K2 is decided under C04)", "CIDv0 needs codec 0x70, which the repository does not bundle: a test codec (dag-cbor) stands in"}
+	c05Split(c, c.Rand.Fork(), c.Pick(80, 6000))
 	n := c.Pick(400, 30000)
 	for i := 0; i < n; i++ {
 		if err := c05Case(c, c.Rand.Fork(), i); err != nil {
